@@ -13,3 +13,49 @@ pub open spec fn semicolon_after_value(t0: Tokens, e: Error) -> bool {
 	&&& forward(location) && location.span.end <= end_loc(t0).span.end
 	&&& forward(after) && after.span.end <= location.span.end
 }
+
+// ---- members and parameters `name [: type]` -------------------------------------------------------------------------------------
+// The name is located at its token.  The location of the type is opened BEFORE the colon is taken (start_location_span is called
+// first), so it starts at the COLON and ends at the last token of the type, reporting line and column of the colon.  The property asks
+// that the span covers the type and starts on the reported line: the contract accepts a span that starts at the colon (as the code
+// stands) or at the first token of the type, with line and column of that token, and pins the end.  Without a type only the name is taken.
+pub open spec fn typed_name_at(t0: Tokens, t1: Tokens, name: Poisonable<Identifier>, vt: Poisonable<ValueType>, lot: Location) -> bool {
+	&&& took(t0, t1, 1)
+	&&& name is Ok && name->Ok_0.location == first_loc(t0)
+	&&& forward(lot)
+	&&& (vt is Ok ==> taken(t0, t1) >= 3 && lot.span.end == t1.last_location.span.end
+		&& ((lot.span.start == t0.tokens@[1].location.span.start && same_line(lot, t0.tokens@[1].location))
+			|| (lot.span.start == t0.tokens@[2].location.span.start && same_line(lot, t0.tokens@[2].location))))
+	&&& (vt is Err ==> taken(t0, t1) == 1 && first_loc(t0).span.end <= lot.span.end)
+	&&& first_loc(t0).span.start <= lot.span.start && lot.span.end <= end_loc(t0).span.end
+}
+// a member of a structure body that starts at t0: name and type are located behind the opening brace, the type not before the name,
+// and nothing ends behind the last token of the file
+pub open spec fn member_in(t0: Tokens, m: Member) -> bool {
+	&&& m.name is Ok && forward(m.name->Ok_0.location) && first_loc(t0).span.start <= m.name->Ok_0.location.span.start
+	&&& forward(m.location_of_type) && m.name->Ok_0.location.span.start <= m.location_of_type.span.start
+	&&& m.location_of_type.span.end <= end_loc(t0).span.end
+}
+
+// ---- the rest of a function signature `params ) [-> type]` (the name and the opening parenthesis were read by the caller) --------------
+pub open spec fn parameter_in(t0: Tokens, m: Parameter) -> bool {
+	&&& m.name is Ok && forward(m.name->Ok_0.location) && t0.tokens@.len() > 0 && first_loc(t0).span.start <= m.name->Ok_0.location.span.start
+	&&& forward(m.location_of_type) && m.name->Ok_0.location.span.start <= m.location_of_type.span.start
+	&&& m.location_of_type.span.end <= end_loc(t0).span.end
+}
+// the location of the return type starts at a token behind `)` (as the code stands: the first token of the type; the arrow would satisfy the
+// property as well), reports line and column of that token, and ends with the last token taken
+pub open spec fn return_type_at(t0: Tokens, t1: Tokens, l: Location) -> bool {
+	&&& forward(l) && l.span.end == t1.last_location.span.end
+	&&& exists|k: int| 1 <= k < taken(t0, t1) && l.span.start == (#[trigger] t0.tokens@[k]).location.span.start && same_line(l, t0.tokens@[k].location)
+}
+
+// t is t0 with a front part taken: what the cursor shows next does not start before the first token of t0, and errors of t are errors of t0
+pub proof fn lemma_suffix_facts(t0: Tokens, t: Tokens)
+	requires stream_wf(t0), stream_wf(t), took(t0, t, 0),
+	ensures end_loc(t) == end_loc(t0),
+		forall|e: Error| #[trigger] err_at(t, e) ==> err_at(t0, e),
+		t.tokens@.len() > 0 ==> t0.tokens@.len() > 0 && first_loc(t0).span.start <= first_loc(t).span.start && first_loc(t) == t0.tokens@[taken(t0, t)].location,
+{
+	if t.tokens@.len() > 0 { assert(t.tokens@[0] == t0.tokens@[taken(t0, t)]); }
+}
